@@ -37,6 +37,14 @@ func init() {
 				add("Squeeze", s, 3, false, false)
 			}
 		}
+		// rank 5 and 6, leading and trailing extents different
+		for _, s := range [][]int{{2, 1, 1, 1, 3}, {3, 1, 2, 1, 1}, {2, 1, 1, 1, 1, 3}} {
+			add("Flatten", s, 0, false, false)
+			add("Reshape", s, 2, false, false)
+			add("Reshape", s, 1, false, false)
+			add("Squeeze", s, 1, false, false)
+			add("Shape", s, 0, false, false)
+		}
 		for _, s := range [][]int{{2, 3}, {1, 2, 1}} {
 			add("Reshape", s, 2, true, false)
 			add("Flatten", s, 0, true, false)
